@@ -1,6 +1,7 @@
 import Cppcms.Common
 import Cppcms.C20.Model
 import Cppcms.C20.Spec
+import Cppcms.C20.Consistent
 /-! Line-protocol driver for C20 (see `harness/c20.cpp` for the case grammar).
 Ordinary lines evaluate the model (with the quirks of the current source, `Gen.quirks`) on the raw
 engine answers shipped on the case line; `J <case> # <impl output>` lines evaluate the specification
@@ -123,6 +124,21 @@ def descend (items : Items) (p : MPos) : List Nat → Option MPos
       | .ok p' => descend child p' is
       | .error _ => none
     | _ => none
+
+/-- the child application mounted in the mapper under `name` -/
+def Items.byName : Items → Bytes → Option Items
+  | .nil, _ => none
+  | .L _ rest, n => rest.byName n
+  | .U _ _ rest, n => rest.byName n
+  | .C _ _ name _ child rest, n => if name == some n then some child else rest.byName n
+
+/-- option vectors along a path of mapper names from the root: innermost first -/
+def optsChain (items : Items) : List Bytes → List Opts → Option (List Opts)
+  | [], acc => some (items.opts :: acc)
+  | n :: ns, acc =>
+    match items.byName n with
+    | some child => optsChain child ns (items.opts :: acc)
+    | none => none
 
 /-! ### the oracle table -/
 
@@ -335,10 +351,74 @@ def evalCase (spec : Bool) (ws : List String) : String :=
       | _, _ => "bad-op"
   | _ => "bad-op"
 
+/-- `JR id kind <R case> # <impl output>`: if the site is `Consistent` for this key and parameters
+(the hypothesis of `mapper_dispatch_consistent`, evaluated on the recorded engine answers), the
+implementation must have produced `root ++ u` and run handler `id` with exactly the parameters.
+Answers `1 c` (consistent, implementation agrees), `1 n` (not consistent: nothing claimed), `0 c` (violation). -/
+def judgeR (id : Nat) (kind : String) (ws : List String) (impl : String) : String :=
+  match sections ws with
+  | ("R" :: meth :: root :: nh :: ws) :: tree :: rest =>
+    match parseHex meth, parseHex root, nh.toNat? with
+    | some meth, some root, some nh =>
+      match parseKV nh ws with
+      | some (helpers, pos :: key :: np :: params) =>
+        match parsePos pos, parseHex key, np.toNat?, params.mapM parseHex, parseTree tree, parseOracle (rest.headD []) {} with
+        | some pos, some key, some _, some params, some items, some o =>
+          let rx := o.rx
+          match items.mnode .nil with
+          | none => "1 n"
+          | some n =>
+            match descend items ⟨n, []⟩ pos with
+            | none => "1 n"
+            | some p =>
+              let ctx : MCtx := { root := root, helpers := helpers.reverse }
+              match mapperForKey p (cstr key) with
+              | .ok (p', rk, kws) =>
+                if params.length < kws.length then "1 n"
+                else
+                  let names := (p'.up.map (·.2)).reverse
+                  match optsChain items names [] with
+                  | some (cur :: anc) =>
+                    let pos' := params.drop kws.length
+                    let ov := mkOverrides kws (params.take kws.length)
+                    -- the arguments the handler is expected to see
+                    let want := pos'.map some
+                    let args : Option (List (Option Bytes)) :=
+                      match getEntry p'.cur rk pos'.length with
+                      | .ok (t, _) => match writeTpl t pos' ctx.helpers ov with
+                        | .ok u => match Spec.route rx (some meth) (cur.depth + 1) cur u with
+                          | (true, [.ran id' a]) =>
+                            if id' == id && (if kind == "rh" then a.drop 1 == want else a == want) then some a else none
+                          | _ => none
+                        | .error _ => none
+                      | .error _ => none
+                    match args with
+                    | none => "1 n"
+                    | some args =>
+                      if Consistent rx (some meth) ctx ov p' cur anc rk pos' id args then
+                        match mapUrl ctx p key params with
+                        | .ok full =>
+                          let expect := "ok:" ++ toHex full ++ " " ++ evsStr [.ran id args]
+                          if impl == expect then "1 c" else "0 c"
+                        | .error _ => "0 c"
+                      else "1 n"
+                  | _ => "1 n"
+              | .error _ => "1 n"
+        | _, _, _, _, _, _ => "bad-op"
+      | _ => "bad-op"
+    | _, _, _ => "bad-op"
+  | _ => "bad-op"
+
 def step (_ : Unit) (line : String) : Unit × String :=
   let ws := words line
   let r : String :=
     match ws with
+    | "JR" :: id :: kind :: rest =>
+      let caseWs := rest.takeWhile (· != "#")
+      let impl := " ".intercalate ((rest.dropWhile (· != "#")).drop 1)
+      match id.toNat? with
+      | some id => judgeR id kind caseWs impl
+      | none => "bad-op"
     | "J" :: rest =>
       let caseWs := rest.takeWhile (· != "#")
       let impl := " ".intercalate ((rest.dropWhile (· != "#")).drop 1)
